@@ -15,29 +15,29 @@ namespace Nmfu
 inductive Ev (A Q : Type) where
   | act : A → Ev A Q
   | asked : Q → Bool → Ev A Q
-  deriving DecidableEq, Repr
+  deriving DecidableEq, Repr, Hashable
 
 inductive Leaf where
   | next (s : Nat)
   | halt
-  deriving DecidableEq, Repr
+  deriving DecidableEq, Repr, Hashable
 
-inductive Tree (A Q : Type) where
-  | emit : A → Tree A Q → Tree A Q
-  | ask : Q → Tree A Q → Tree A Q → Tree A Q
-  | leaf : Leaf → Tree A Q
+inductive Tree (A Q L : Type) where
+  | emit : A → Tree A Q L → Tree A Q L
+  | ask : Q → Tree A Q L → Tree A Q L → Tree A Q L
+  | leaf : L → Tree A Q L
   deriving Repr
 
 abbrev Oracle (A Q : Type) := List (Ev A Q) → Q → Bool
 
-variable {A Q : Type}
+variable {A Q L : Type}
 
 def Leaf.cfg : Leaf → Option Nat
   | .next s => some s
   | .halt => none
 
 /-- Run a tree from history `h`: the events it performs (answers included) and its leaf. -/
-def Tree.run (ω : Oracle A Q) : Tree A Q → List (Ev A Q) → List (Ev A Q) × Leaf
+def Tree.run (ω : Oracle A Q) : Tree A Q L → List (Ev A Q) → List (Ev A Q) × L
   | .emit a k, h =>
       let r := Tree.run ω k (h ++ [.act a])
       (.act a :: r.1, r.2)
@@ -51,25 +51,31 @@ def Tree.run (ω : Oracle A Q) : Tree A Q → List (Ev A Q) → List (Ev A Q) ×
   | .leaf l, _ => ([], l)
 
 /-- All root-to-leaf paths of a tree. -/
-def Tree.paths : Tree A Q → List (List (Ev A Q) × Leaf)
+def Tree.paths : Tree A Q L → List (List (Ev A Q) × L)
   | .emit a k => (Tree.paths k).map fun p => (.act a :: p.1, p.2)
   | .ask q kt kf =>
       ((Tree.paths kt).map fun p => (.asked q true :: p.1, p.2)) ++
       ((Tree.paths kf).map fun p => (.asked q false :: p.1, p.2))
   | .leaf l => [([], l)]
 
-def Tree.size : Tree A Q → Nat
+def Tree.size : Tree A Q L → Nat
   | .emit _ k => k.size + 1
   | .ask _ kt kf => kt.size + kf.size + 1
   | .leaf _ => 1
 
+/-- Graft: replace every leaf by a tree. -/
+def Tree.bind {L' : Type} : Tree A Q L → (L → Tree A Q L') → Tree A Q L'
+  | .emit a k, f => .emit a (Tree.bind k f)
+  | .ask q kt kf, f => .ask q (Tree.bind kt f) (Tree.bind kf f)
+  | .leaf l, f => f l
+
 /-- A symbolic machine: a start state and one tree per (state, symbol). -/
 structure SM (A Q : Type) where
   start : Nat
-  step : Nat → Nat → Tree A Q
+  step : Nat → Nat → Tree A Q Leaf
 
 /-- The tree of a configuration (`none` = halted) on a symbol. -/
-def SM.tree (M : SM A Q) : Option Nat → Nat → Tree A Q
+def SM.tree (M : SM A Q) : Option Nat → Nat → Tree A Q Leaf
   | none, _ => .leaf .halt
   | some s, x => M.step s x
 
